@@ -59,6 +59,51 @@ PROPS = {
     },
 }
 
+PROPS.update({
+    "C02": {
+        "level_text": "Bounded-exhaustive exploration of scanner configurations, each driven through the real Scanner state machine (next() to exhaustion plus two more calls): ALL 3906 DNA strings of length <= 5 x all matrices of a tie/near-tie row menu (M<=2, part of M=3) x thresholds (every attainable score, midpoints, below/above the extremes) x block sizes x 3 dispatcher arms; every length 0..=170 (and around 8192) x all block sizes 1..8,256 so that every position of a block boundary relative to sequence rows and look-ahead rows occurs. Oracle: reference hit set from exact f64 scores.",
+        "level_note": "Trusted: reference scores (f64) and the summation bound used to leave positions within rounding of the threshold undecided (never arises for the integer/dyadic menus). Finite thresholds only.",
+        "technique": "bounded-exhaustive enumeration of scanner configurations, each run to exhaustion against a reference hit set",
+        "level": "exploration",
+        "profiles": ["rel", "chk"],
+        "wall": {"quick": 200, "thorough": 3000},
+        "only": {"chk": {"quick": "shapes"}},
+        "rule": "One evaluation = one scanner (sequence, matrix, threshold, block size, arm) iterated to exhaustion; non-trivial = L >= M; distinct by construction of the index.",
+        "assumptions": COMMON_ASSUMPTIONS + ["the scanner only works on DNA with 32 columns (the only instantiation the library provides)"],
+    },
+    "C03": {
+        "level_text": "Model checking of the Scanner state machine over the operation alphabet {next, max}: for every configuration of the C02 space, EVERY history next^k . max (k = 0..=#hits+1) is re-executed on a fresh real scanner and the result compared with the reference maximum over the unconsumed hits; the row menu contains a designed pair whose 8-bit order inverts the real order, so pruning with an over-estimate is observable.",
+        "level_note": "Trusted: reference scores; for > 40 hits only the prefix lengths {0,1,2,3,h/3,h/2,h-1,h,h+1} are run (stated bound). Ties may be resolved either way.",
+        "technique": "exhaustive enumeration of next^k.max histories re-executed on the real scanner, reference-model comparison",
+        "level": "model_checking",
+        "profiles": ["rel", "chk"],
+        "wall": {"quick": 300, "thorough": 3000},
+        "only": {"chk": {"quick": "shapes"}},
+        "rule": "One evaluation = one history next^k . max on a fresh scanner; states = histories, transitions = next()/max() calls executed.",
+        "assumptions": COMMON_ASSUMPTIONS + ["consumed hits are excluded from the maximum (as the statement says)"],
+    },
+    "C07": {
+        "level_text": "Bounded-exhaustive exploration: score matrices built through the public API with the maximum planted at every column of every row class, for f32 and u8, 0..=40/255/256/257/1000 rows, all-negative / -inf / ramp backgrounds, duplicated maxima, a threshold menu, through every configuration (generic lanes, SSE2, AVX2, dispatcher arms, StripedScores API, unstriped Scores); second clause (-inf past the last valid position) checked on the C01 shape loop.",
+        "level_note": "Trusted: scalar scan of the cells read back through the public matrix accessor. NaN excluded (outside the statement).",
+        "technique": "bounded-exhaustive product enumeration of planted-maximum matrices x backends against a scalar oracle",
+        "level": "exploration",
+        "profiles": ["rel", "chk"],
+        "wall": {"quick": 200, "thorough": 3000},
+        "rule": "One evaluation = one (matrix plan, configuration) probe of max/argmax/threshold; non-trivial = rows > 0.",
+        "assumptions": COMMON_ASSUMPTIONS,
+    },
+    "C08": {
+        "level_text": "Bounded-exhaustive exploration: all 7^M matrices of a row menu (M<=4, 5 thorough) x 3 wildcard-column kinds on a de Bruijn word containing every 5^M window, wide matrices (M up to 64/300) on consensus / anti-consensus / all single-substitution neighbours, through every 8-bit kernel (generic, SSE2, AVX2 saturating, dispatcher arms, scalar score_position); release and overflow-checking builds.",
+        "level_note": "Trusted: f32 sequential reference score and the library's own scale() mapping (the property is stated relative to it). No tolerance is applied (DESIGN section 6).",
+        "technique": "bounded-exhaustive enumeration of matrices x all windows x 8-bit kernels, inequality oracle",
+        "level": "exploration",
+        "profiles": ["rel", "chk"],
+        "wall": {"quick": 200, "thorough": 3000},
+        "rule": "One evaluation = one (matrix, kernel) run over a sequence containing every window; non-trivial = some window has a finite real score.",
+        "assumptions": COMMON_ASSUMPTIONS,
+    },
+})
+
 # properties not claimed (with reason); kept current as checks are added
 NOT_APPLICABLE = [
     {"property_id": p, "reason": "check not built yet in this round (planned in DESIGN.md section 2); not claimed until its harness exists"}
